@@ -1,4 +1,5 @@
 mod common;
+mod c06;
 mod c09;
 mod c17;
 mod c18;
@@ -44,6 +45,7 @@ fn main() {
         "C17child" => c17::child_run(&args.rest),
         "C09" => c09::run(&args),
         "C09child" => c09::child_run(&args.rest),
+        "C06" => c06::run(&args),
         x => {
             eprintln!("unknown property {}", x);
             std::process::exit(2);
